@@ -344,6 +344,7 @@ func (g *gen) richParser() {
 	if g.chance(70) {
 		g.sprinkleErrors()
 	}
+	g.s.NormalizeLists()
 }
 
 func (g *gen) famStatements() {
